@@ -240,6 +240,10 @@ class CompiledRouter:
             else:
                 return None
 
+        # NOTE: Nodes created for this template, so that a template that is
+        #   rejected half-way through leaves no empty node behind.
+        created: List[Tuple[List[CompiledRouterNode], CompiledRouterNode]] = []
+
         def insert(nodes: List[CompiledRouterNode], path_index: int = 0) -> None:
             for node in nodes:
                 segment = path[path_index]
@@ -282,6 +286,7 @@ class CompiledRouter:
                         'that includes other characters or variables.'.format(*cpc)
                     )
             nodes.append(new_node)
+            created.append((nodes, new_node))
             if path_index == len(path) - 1:
                 new_node.method_map = method_map
                 new_node.resource = resource
@@ -289,15 +294,23 @@ class CompiledRouter:
             else:
                 cpc = find_cmp_converter(new_node)
                 if cpc:
-                    # NOTE(caselit): assume success and remove the node if it's not
-                    # supported to avoid leaving the router in a broken state.
-                    nodes.remove(new_node)
                     raise UnacceptableRouteError(
                         _NO_CHILDREN_ERR.format(uri_template, *cpc)
                     )
                 insert(new_node.children, path_index + 1)
 
-        insert(self._roots)
+        try:
+            insert(self._roots)
+        except UnacceptableRouteError:
+            # NOTE(caselit): assume success and remove the new nodes if the
+            # template is not supported to avoid leaving the router in a broken
+            # state. Removing the topmost new node also removes every node
+            # created below it.
+            if created:
+                siblings, first_new_node = created[0]
+                siblings.remove(first_new_node)
+            raise
+
         # NOTE(caselit): when compile is True run the actual compile step, otherwise
         # reset the _find, so that _compile will be called on the next find use
         if kwargs.get('compile', False):
